@@ -18,6 +18,7 @@ inductive Var where
   | ij  (pfx : String) (k j : Nat)
   | vi  (pfx : String) (v : String) (k : Nat)
   | nm  (pfx : String) (v : String)
+  | ijk (pfx : String) (a b c : Nat)
   deriving DecidableEq, Repr, Inhabited
 
 def pyq (s : String) : String := "'" ++ s ++ "'"
@@ -30,6 +31,7 @@ def Var.name : Var → String
   | .ij p k j    => p ++ "(" ++ toString k ++ "," ++ toString j ++ ")"
   | .vi p a k    => p ++ "(" ++ pyq a ++ "," ++ toString k ++ ")"
   | .nm p a      => p ++ pyq a
+  | .ijk p a b c => p ++ "(" ++ toString a ++ "," ++ toString b ++ "," ++ toString c ++ ")"
 
 abbrev Terms := List (Rat × Var)
 
